@@ -105,7 +105,9 @@ def _handle_effects(prog, fk):
             nt += 1
         elif k == "std::mem::drop" and c.get("glue", {}).get("own") is not None and prog.insts[c["glue"]["own"]].key == ARC_DROP:
             dr += 1
-        elif k.startswith("future::") and k in prog.fns and k != fk:
+        elif (k.startswith("future::") or k in ("sync::arc::Arc::<T>::increment_strong_count",
+                                                 "sync::arc::Arc::<T>::decrement_strong_count")) and k in prog.fns and k != fk:
+            # local helpers and loom Arc's own raw-count helpers are followed: their effect is what they do to the handle
             r2, c2, d2, n2 = _handle_effects(prog, k)
             raw += r2
             cl += c2
@@ -289,6 +291,8 @@ def run(ctx):
     from . import guardvocab
     guardvocab.G0(ctx, effects={'notify', 'wait'})
     guardvocab.G1(ctx, effects={'notify', 'wait'})
+    guardvocab.G2(ctx, scopes=('rt::notify::', 'future::'))
+    guardvocab.G3(ctx, scopes=('rt::notify::', 'future::'))
     if "future::block_on" not in ctx.prog.fns:
         ctx.notes.append("config %s has no `futures` feature: C20 rules not applicable there" % ctx.config)
         return
@@ -297,7 +301,7 @@ def run(ctx):
     F3(ctx)
     W4(ctx)
     from . import g_sync
-    g_sync.run_all(ctx, ["Y1:notify"])
+    g_sync.run_all(ctx, ["Y1:notify,mutex", "Y1c"])
     row = _notify_new_args(ctx.prog, "future::block_on")
     if row and all((a, b) == (0, 1) for (_, a, b) in row):
         ctx.ok("W5", "future::block_on", "Notify::new(seq_cst=false, spurious=true)", [site_str(ctx.prog, "future::block_on", row[0][0])])
